@@ -5,6 +5,8 @@ import (
 	"runtime"
 	"sort"
 	"strings"
+
+	"github.com/lrstanley/girc"
 )
 
 // encCfg encodes a session config for the Lean `run` op (must match Girc/Drv/RunOps.lean argCfg).
@@ -28,7 +30,7 @@ func encCfg(sc SessCfg, tlsActive, stsRecentlyFailed bool) string {
 		caps = append(caps, strings.Join(append([]string{k}, sc.SupportedCaps[k]...), "\x00"))
 	}
 	fl := ""
-	for _, f := range []bool{sc.DisableSTS, sc.DisableSTSFallback, sc.SSL, tlsActive, stsRecentlyFailed, sc.DisableTracking} {
+	for _, f := range []bool{sc.DisableSTS, sc.DisableSTSFallback, sc.SSL, tlsActive, stsRecentlyFailed, sc.DisableTracking, sc.GlobalFormat} {
 		if f {
 			fl += "1"
 		} else {
@@ -127,11 +129,9 @@ func (c *Ctx) CompareSession(sc SessCfg, steps []string, tlsActive, stsRecentlyF
 			line := st[1:]
 			s.Steps = append(s.Steps, Step{Op: "recv", Arg: line}, Step{Op: "barrier"})
 			// after 001 the background welcome handler sets the nick: wait for it
-			if f := strings.Fields(line); len(f) >= 3 && f[0][0] == ':' && f[1] == "001" {
-				nick = strings.TrimPrefix(f[2], ":")
-				if !sc.DisableTracking {
-					s.Steps = append(s.Steps, Step{Op: "waitnick", Arg: nick})
-				}
+			if e := girc.ParseEvent(line); e != nil && e.Command == "001" && len(e.Params) > 0 && !sc.DisableTracking {
+				nick = e.Params[0]
+				s.Steps = append(s.Steps, Step{Op: "waitnick", Arg: nick})
 			}
 			if strings.Contains(line, "\x01") {
 				s.Steps = append(s.Steps, Step{Op: "sleep"}, Step{Op: "barrier"})
@@ -145,8 +145,30 @@ func (c *Ctx) CompareSession(sc SessCfg, steps []string, tlsActive, stsRecentlyF
 			}
 		}
 	}
+	var msteps []string
+	for _, st := range steps {
+		if st[0] == 'D' && sc.DisableTracking {
+			continue
+		}
+		msteps = append(msteps, st)
+	}
+	out := &SessCmp{}
+	var texts []string
+	for _, st := range steps {
+		if st[0] == 'C' {
+			texts = append(texts, strings.Split(st[1:], "\x00")[1:]...)
+		}
+	}
+	resp := c.L.Call("run", encCfg(sc, tlsActive, stsRecentlyFailed), hxList(msteps), hxList(badURLs(texts...)))
+	f := strings.Split(resp, " ")
+	if len(f) != 4 {
+		fatal("run: bad response %q", resp)
+	}
+	nModel := len(splitHexList(strings.TrimPrefix(f[0], "W=")))
+	s.RegLines = registrationCount(sc)
+	s.Steps = append(s.Steps, Step{Op: "waitwritten", Arg: fmt.Sprint(s.RegLines + nModel)})
 	res := c.RunSession(s)
-	out := &SessCmp{Res: res}
+	out.Res = res
 	if res.Crashed || res.Wedged {
 		return out
 	}
@@ -178,18 +200,6 @@ func (c *Ctx) CompareSession(sc SessCfg, steps []string, tlsActive, stsRecentlyF
 	}
 	out.ImplEnd = canonEnded(res.Connect)
 
-	var msteps []string
-	for _, st := range steps {
-		if st[0] == 'D' && sc.DisableTracking {
-			continue
-		}
-		msteps = append(msteps, st)
-	}
-	resp := c.L.Call("run", encCfg(sc, tlsActive, stsRecentlyFailed), hxList(msteps))
-	f := strings.Split(resp, " ")
-	if len(f) != 4 {
-		fatal("run: bad response %q", resp)
-	}
 	var ctcpModel []string
 	for _, h := range splitHexList(strings.TrimPrefix(f[0], "W=")) {
 		cl := canonLine(h)
